@@ -1,5 +1,5 @@
 (* C10 — exit status 0 means complete, final-named output; any failure leaves none. Pinned statements only: each theorem is closed by `exact` of a lemma proved in theories/. *)
-From RBP Require Import Bytes Model CsvP NamesP.
+From RBP Require Import Bytes Model CsvP NamesP HistoryP.
 From RBP Require Drive Merkle Utxo Stats OutProto Reader Published Misc.
 
 Theorem C10_failure_no_final :
@@ -38,6 +38,10 @@ Theorem C10_names_distinct_for_any_stems :
   forall (stems : list bytes) (s e : N), NoDup stems -> Forall no_dash stems -> s < 2 ^ 64 -> e < 2 ^ 64 -> NoDup (map tmp_name stems ++ map (fun st : bytes => final_name st s e) stems).
 Proof. exact names_distinct. Qed.
 
+Theorem C10_later_run_of_the_same_names_wins :
+  forall (cap : nat) (L : N) (ws : list OutProto.wr) (rows1 rows2 : list (nat * bytes)) (tr1 : list OutProto.osop) (e1 : OutProto.exitcode) (tr2 : list OutProto.osop) (s : OutProto.fs), (0 < cap)%nat -> OutProto.run cap L ws rows1 = (tr1, e1) -> OutProto.run cap L ws rows2 = (tr2, 0) -> NoDup (OutProto.tmps ws ++ OutProto.finals ws) -> OutProto.fresh_writers ws -> (forall r : nat * bytes, In r rows2 -> (fst r < length ws)%nat) -> forall j : nat, (j < length ws)%nat -> OutProto.fs_get (nth j (OutProto.finals ws) 0) (OutProto.apply_trace (OutProto.apply_trace s tr1) tr2) = Some (OutProto.data_for j rows2).
+Proof. exact later_run_wins. Qed.
+
 Print Assumptions C10_failure_no_final.
 Print Assumptions C10_success_complete.
 Print Assumptions C10_success_content.
@@ -47,3 +51,4 @@ Print Assumptions C10_file_is_its_rows.
 Print Assumptions C10_final_name_never_tmp_name.
 Print Assumptions C10_csv_names_distinct.
 Print Assumptions C10_names_distinct_for_any_stems.
+Print Assumptions C10_later_run_of_the_same_names_wins.
